@@ -71,7 +71,7 @@ def run(ctx):
         pos_atoms.add("pi")
 
         def fresh():
-            return Evaluator(mod, inline=True, branch_policy=N.skip_checks_policy)
+            return Evaluator(mod, inline=True, branch_policy=N.skip_checks_policy, sign_policy=N.domain_sign_policy(pos_atoms))
 
         # ---- cell_volume
         fn = mod.func("cell_volume"); ctx.saw(mod, fn)
@@ -180,8 +180,8 @@ def run(ctx):
         # ---- form_a_mat_inv: its value times form_a_mat(cell) is the identity, however it is computed (inv(), a closed form)
         fn = mod.func("form_a_mat_inv"); ctx.saw(mod, fn)
         from xfabsa import numeval
-        Ainv = Evaluator(mod, inline=True).call_function("form_a_mat_inv", [uc])
-        Afull = Evaluator(mod, inline=True).call_function("form_a_mat", [uc])
+        Ainv = Evaluator(mod, inline=True, sign_policy=N.domain_sign_policy(pos_atoms)).call_function("form_a_mat_inv", [uc])
+        Afull = Evaluator(mod, inline=True, sign_policy=N.domain_sign_policy(pos_atoms)).call_function("form_a_mat", [uc])
         Ainv = Ainv if isinstance(Ainv, Arr) else materialise(Ainv)
         Afull = Afull if isinstance(Afull, Arr) else materialise(Afull)
         if Ainv is None or Afull is None or Ainv.shape != (3, 3) or Afull.shape != (3, 3):
